@@ -589,4 +589,40 @@ def run_intern(prog, tier, repo):
             else:
                 res.ok(key, b.loc(t[7]), 'push dominated by lookups in both intern maps and paired with an insert')
     res.floor('real-text slot pushes', n, 2)
+    # overwriting a slot with a live (non-reclaimed) value must also enter the new text into an intern map, otherwise
+    # the string ends up in neither map and the next allocation of the same text gets a second handle
+    vnames = [v.name for v in slot.variants]
+    live = [i for i, v in enumerate(slot.variants) if (len(v.fields) == 1 and v.fields[0].ty.k == 'ref')
+            or (len(v.fields) == 2 and v.fields[1].ty.s == 'bool')]
+    n2 = 0
+    for b in [x for x in prog.bodies.values() if x.crate == 'samlang_heap']:
+        sites = _slot_assignments(prog, b, slot)
+        if not sites:
+            continue
+        cfg = cfg_of(b)
+        inserts = []
+        for bj, bl in enumerate(b.blocks):
+            tt = bl.term
+            if tt[0] == 'call' and tt[3] and not bl.cleanup and (callee(tt)[1] or '').endswith('HashMap::<K, V, S, A>::insert'):
+                rr, pp = operand_root(b, tt[3][0])
+                fns = field_names(pp)
+                if rr == 1 and fns and fns[-1] in maps:
+                    inserts.append(bj)
+        for bi, st in sites:
+            rv = st[2]
+            if rv[0] == 'use' and rv[1][0] in ('c', 'm') and not rv[1][1].proj:
+                sdv = single_def(b, rv[1][1].local)
+                if sdv and sdv[1] != 'term':
+                    rv = sdv[2]
+            if not (rv[0] == 'agg' and rv[1][0] == 'adt' and rv[1][1] == slot.id and rv[1][2] in live):
+                continue       # reclaimed / unknown values are covered by DEALLOC-OWNER
+            n2 += 1
+            key = f'overwrite-interned:{b.name}'
+            if inserts and (cfg.nodes_dominate(inserts, bi) or all(cfg.nodes_postdominate(inserts, bi) for _ in [0])):
+                res.ok(key, b.loc(st[3]), f'slot overwritten with a live {vnames[rv[1][2]]} value and entered into an intern map')
+            else:
+                res.violation(key, b.loc(st[3]), f'{b.name} overwrites a slot with a live {vnames[rv[1][2]]} value but does not enter '
+                              f'the text into an intern map on that path: the string is in neither map, so allocating the same '
+                              f'text again yields a second, different handle (and two module references for one path)')
+    res.floor('live slot overwrites', n2, 2)
     return [res]
